@@ -46,7 +46,11 @@ impl builtins::Command for ExportCommand {
         mut context: brush_core::ExecutionContext<'_, SE>,
     ) -> Result<brush_core::ExecutionResult, Self::Error> {
         if self.declarations.is_empty() {
-            display_all_exported_vars(&context)?;
+            if self.names_are_functions {
+                display_all_exported_funcs(&context)?;
+            } else {
+                display_all_exported_vars(&context)?;
+            }
             return Ok(ExecutionResult::success());
         }
 
@@ -186,6 +190,21 @@ fn display_all_exported_vars(
                 "declare -{flags} {name}{separator}{}",
                 value.format(variables::FormatStyle::DeclarePrint, context.shell)?
             )?;
+        }
+    }
+
+    Ok(())
+}
+
+fn display_all_exported_funcs(
+    context: &brush_core::ExecutionContext<'_, impl brush_core::ShellExtensions>,
+) -> Result<(), brush_core::Error> {
+    // Enumerate functions, sorted by name; each definition is followed by the line that
+    // restores its export attribute.
+    for (name, registration) in context.shell.funcs().iter().sorted_by_key(|v| v.0) {
+        if registration.is_exported() {
+            writeln!(context.stdout(), "{}", registration.definition())?;
+            writeln!(context.stdout(), "declare -fx {name}")?;
         }
     }
 
